@@ -224,8 +224,16 @@ def check_validation(repo, rep):
     fn = repo.func(RESEARCH, "_isolated_backtest")
     tests = []
     for n in ast.walk(fn):
-        if isinstance(n, ast.If) and isinstance(n.test, ast.Compare) and len(n.test.ops) == 1:
-            t = n.test
+        if not isinstance(n, ast.If):
+            continue
+        # the spacing comparison itself, possibly conjoined with a guard that there are at least two candles to compare
+        conj = n.test.values if isinstance(n.test, ast.BoolOp) and isinstance(n.test.op, ast.And) else [n.test]
+        cands = [c for c in conj if isinstance(c, ast.Compare) and len(c.ops) == 1 and any(isinstance(x, ast.Constant) and x.value == MIN for x in [c.left, c.comparators[0]])]
+        others = [c for c in conj if c not in cands]
+        if len(cands) != 1 or any(not (isinstance(c, ast.Compare) and norm(c.left).startswith("len(") and norm(c) in (f"{norm(c.left)} > 1", f"{norm(c.left)} >= 2")) for c in others):
+            continue
+        if True:
+            t = cands[0]
             sides = [t.left, t.comparators[0]]
             cst = [s for s in sides if isinstance(s, ast.Constant) and s.value == MIN]
             dif = [s for s in sides if isinstance(s, ast.BinOp) and isinstance(s.op, ast.Sub)]
